@@ -37,10 +37,7 @@ theorem C03_template {v : Nat} (hv : v < 40) {r c : Nat} (hr : r < Regions.side 
     simp only [Regions.stdValue, Regions.stdValueIn, Regions.region] at hf h
     rw [h] at hf
     simp at hf
-  simp only [QR.value, template_cell hv hr hc, expectedCell, expectedCellIn]
-  have : (Regions.regionIn (Regions.ctx v) r c == Region.version) = false := by
-    simpa [Regions.region] using hreg
-  simp only [this, Bool.false_eq_true, if_false, mval_mk]
+  simp only [QR.value, template_cell hv hr hc hreg, expectedCell, expectedCellIn, mval_mk]
   simp only [Regions.stdValue] at hf
   simp [hf]
 
